@@ -102,6 +102,7 @@ type wstate struct {
 	effects []Effect
 	visits  map[int]int
 	blocks  []int
+	rng     map[string][2]int64
 }
 
 func (s *wstate) clone() *wstate {
@@ -121,6 +122,10 @@ func (s *wstate) clone() *wstate {
 	}
 	for k, v := range s.visits {
 		n.visits[k] = v
+	}
+	n.rng = make(map[string][2]int64, len(s.rng))
+	for k, v := range s.rng {
+		n.rng[k] = v
 	}
 	n.order = append([]string(nil), s.order...)
 	n.effects = append([]Effect(nil), s.effects...)
@@ -162,7 +167,7 @@ func WalkFrom(fn *ssa.Function, start, prev *ssa.BasicBlock, cfg WalkCfg) ([]*Pa
 			}
 		}
 	}
-	s := &wstate{env: map[ssa.Value]AV{}, mem: map[*ssa.Alloc]AV{}, heap: map[string]AV{}, asg: Asg{}, visits: map[int]int{}}
+	s := &wstate{env: map[ssa.Value]AV{}, mem: map[*ssa.Alloc]AV{}, heap: map[string]AV{}, asg: Asg{}, visits: map[int]int{}, rng: map[string][2]int64{}}
 	for k, v := range cfg.Pre {
 		s.asg[k] = v
 	}
@@ -431,6 +436,32 @@ func (w *walker) branch(s *wstate, b *ssa.BasicBlock, in *ssa.If, depth int) {
 		}
 	}
 	key, pol := normCond(av.T)
+	// integer-range reasoning: a comparison of some term with an integer constant is decided by
+	// (and refines) the range the path already knows for that term; len(...) terms start at [0, inf)
+	if sub, rel, k, ok := cmpWithConst(key); ok {
+		lo, hi := s.rangeOf(sub)
+		for _, truth := range []bool{true, false} {
+			kv := truth == pol
+			nlo, nhi, feasible := refineRange(lo, hi, rel, k, kv)
+			if !feasible {
+				continue
+			}
+			if w.cfg.Prune != nil && w.cfg.Prune(key.String(), key, constant.MakeBool(kv)) {
+				continue
+			}
+			n := s.clone()
+			n.asg[key.String()] = constant.MakeBool(kv)
+			n.order = append(n.order, key.String())
+			w.keyTerm[key.String()] = key
+			n.rng[sub.String()] = [2]int64{nlo, nhi}
+			if truth {
+				w.block(n, b.Succs[0], b, depth+1)
+			} else {
+				w.block(n, b.Succs[1], b, depth+1)
+			}
+		}
+		return
+	}
 	for _, truth := range []bool{true, false} {
 		kv := truth == pol // value assigned to the normalised key
 		if w.cfg.Prune != nil && w.cfg.Prune(key.String(), key, constant.MakeBool(kv)) {
@@ -446,6 +477,104 @@ func (w *walker) branch(s *wstate, b *ssa.BasicBlock, in *ssa.If, depth int) {
 			w.block(n, b.Succs[1], b, depth+1)
 		}
 	}
+}
+
+const rngInf = int64(1) << 62
+
+func (s *wstate) rangeOf(t *Term) (int64, int64) {
+	if r, ok := s.rng[t.String()]; ok {
+		return r[0], r[1]
+	}
+	if t.Op == "call" && (t.Name == "builtin:len" || t.Name == "builtin:cap") {
+		return 0, rngInf
+	}
+	return -rngInf, rngInf
+}
+
+// cmpWithConst: key is (T rel c) or (c rel T) with c an integer constant and T not constant;
+// returns T, the relation normalised to "T rel c", and c.
+func cmpWithConst(key *Term) (*Term, string, int64, bool) {
+	if key.Op != "bin" || len(key.Args) != 2 {
+		return nil, "", 0, false
+	}
+	switch key.Name {
+	case "==", "<", "<=", ">", ">=":
+	default:
+		return nil, "", 0, false
+	}
+	intOf := func(t *Term) (int64, bool) {
+		if t.Op != "const" {
+			return 0, false
+		}
+		c, ok := t.V.(*ssa.Const)
+		if !ok || c.Value == nil || c.Value.Kind() != constant.Int {
+			return 0, false
+		}
+		return constant.Int64Val(c.Value)
+	}
+	isLen := func(t *Term) bool { return t.Op == "call" && (t.Name == "builtin:len" || t.Name == "builtin:cap") }
+	if k, ok := intOf(key.Args[1]); ok && isLen(key.Args[0]) {
+		return key.Args[0], key.Name, k, true
+	}
+	if k, ok := intOf(key.Args[0]); ok && isLen(key.Args[1]) {
+		flip := map[string]string{"==": "==", "<": ">", "<=": ">=", ">": "<", ">=": "<="}
+		return key.Args[1], flip[key.Name], k, true
+	}
+	return nil, "", 0, false
+}
+
+// refineRange: the range of T given that (T rel k) has truth value kv; feasible=false if empty.
+func refineRange(lo, hi int64, rel string, k int64, kv bool) (int64, int64, bool) {
+	if !kv {
+		switch rel {
+		case "<":
+			rel = ">="
+		case "<=":
+			rel = ">"
+		case ">":
+			rel = "<="
+		case ">=":
+			rel = "<"
+		case "==":
+			// T != k: only refines at the borders
+			if lo == k && hi == k {
+				return lo, hi, false
+			}
+			if lo == k {
+				lo++
+			}
+			if hi == k {
+				hi--
+			}
+			return lo, hi, lo <= hi
+		}
+	}
+	switch rel {
+	case "<":
+		if k-1 < hi {
+			hi = k - 1
+		}
+	case "<=":
+		if k < hi {
+			hi = k
+		}
+	case ">":
+		if k+1 > lo {
+			lo = k + 1
+		}
+	case ">=":
+		if k > lo {
+			lo = k
+		}
+	case "==":
+		if k > lo {
+			lo = k
+		}
+		if k < hi {
+			hi = k
+		}
+	}
+	return lo, hi, lo <= hi
 }
 
 // normCond strips negations: returns the positive condition term and the polarity such that
@@ -557,7 +686,7 @@ func (w *walker) instr(s *wstate, b *ssa.BasicBlock, in ssa.Instruction) {
 	case *ssa.BinOp:
 		x, y := w.val(s, in.X), w.val(s, in.Y)
 		x, y = w.refine(s, x), w.refine(s, y)
-		t := &Term{Op: "bin", Name: in.Op.String(), Args: []*Term{x.T, y.T}, V: in, Typ: in.Type()}
+		t := &Term{Op: "bin", Name: in.Op.String(), Args: []*Term{foldedTerm(x), foldedTerm(y)}, V: in, Typ: in.Type()}
 		if x.C != nil && y.C != nil {
 			if c, ok := foldBin(in.Op.String(), x.C, y.C); ok {
 				s.env[in] = AV{C: c, T: t}
@@ -654,6 +783,15 @@ func (w *walker) instr(s *wstate, b *ssa.BasicBlock, in ssa.Instruction) {
 	default:
 		// Select and anything unexpected: ignored (no rule walks functions with them)
 	}
+}
+
+// foldedTerm: the operand's term, replaced by a constant term when the path determines its value
+// (so that keys read `0 < len(x)` rather than `(-1 + 1) < len(x)`).
+func foldedTerm(a AV) *Term {
+	if a.C != nil && a.T != nil && a.T.Op != "const" && (a.C.Kind() == constant.Int || a.C.Kind() == constant.Bool) {
+		return &Term{Op: "const", Name: a.C.ExactString(), V: ssa.NewConst(a.C, a.T.Typ), Typ: a.T.Typ}
+	}
+	return a.T
 }
 
 func zeroAV(v ssa.Value) AV {
